@@ -86,7 +86,7 @@ static bool should_fail(void* fp) {
   bool f = false;
   if (g_alloc.fail_at > 0) f = g_alloc.fail_from ? n >= g_alloc.fail_at : n == g_alloc.fail_at;
   if (f) {
-    if (g_alloc.failed++ == 0) { capture_bt(g_alloc.fail_bt, fp); g_alloc.first_failed_attempt = n; }
+    if (g_alloc.failed++ == 0) { capture_bt(g_alloc.fail_bt, fp); g_alloc.first_failed_attempt = n; if (g_alloc.on_first_fail) g_alloc.on_first_fail(); }
     errno = ENOMEM;
   }
   return f;
